@@ -7,6 +7,7 @@ import (
 	"github.com/aergoio/aergo/v2/zz_verif/simkit"
 	_ "github.com/aergoio/aergo/v2/zz_verif/worlds/chainw"
 	_ "github.com/aergoio/aergo/v2/zz_verif/worlds/dposw"
+	_ "github.com/aergoio/aergo/v2/zz_verif/worlds/elect"
 	_ "github.com/aergoio/aergo/v2/zz_verif/worlds/exec"
 	_ "github.com/aergoio/aergo/v2/zz_verif/worlds/gov"
 	_ "github.com/aergoio/aergo/v2/zz_verif/worlds/pool"
